@@ -26,8 +26,16 @@ def trip(d):
     return "(%s, %s, %s)" % (cbool(d["m"]), cN(d["r"]), cN(d["l"]))
 
 
+def nat_or_impossible(v):
+    """decimal -> N literal; a NEGATIVE value (never a valid global index) is transcribed as 2^300 + |v|, which no expected value equals"""
+    v = int(v or 0)
+    return cN(v if v >= 0 else (1 << 300) - v)
+
+
 def coq_case(o):
     i = o["in"]
+    for k in ("enc", "reenc", "dec", "wire", "commit", "gihash", "prover", "opt_le", "exit_hash", "opt_hash"):
+        o.setdefault(k, {"m": False, "r": 0, "l": 0} if k == "dec" else "")
     if i["kind"] == "batch":
         return ("CB {| b_ts := %s; b_wire := %s; b_prover := %s; b_exit_hash := %s; b_ler := %s; b_pp_hash := %s; b_opt_hash := %s |}" % (
             clist([trip(t) for t in i["ts"]]), clist([cbn(x) for x in o.get("b_wire") or []]), clist([cbn(x) for x in o.get("b_prover") or []]),
@@ -35,11 +43,11 @@ def coq_case(o):
     if i["kind"] == "triple":
         return ("CT {| t_m := %s; t_r := %s; t_l := %s; t_enc := %s; t_dec := %s; t_wire := %s; t_commit := %s; "
                 "t_gihash := %s; t_prover := %s |}" % (
-                    cbool(i["m"]), cN(i["r"]), cN(i["l"]), cN(o["enc"]), trip(o["dec"]), cbn(o["wire"]),
+                    cbool(i["m"]), cN(i["r"]), cN(i["l"]), nat_or_impossible(o["enc"]), trip(o["dec"]), cbn(o["wire"]),
                     cbn(o["commit"]), cNhex(o["gihash"]), cbn(o["prover"])))
     return ("CV {| v_v := %s; v_dec := %s; v_reenc := %s; v_wire := %s; v_commit := %s; v_opt_le := %s; "
             "v_exit_hash := %s; v_opt_hash := %s |}" % (
-                cN(i["v"]), trip(o["dec"]), cN(o["reenc"]), cbn(o["wire"]), cbn(o["commit"]), cbn(o["opt_le"]),
+                cN(i["v"]), trip(o["dec"]), nat_or_impossible(o["reenc"]), cbn(o["wire"]), cbn(o["commit"]), cbn(o["opt_le"]),
                 cNhex(o["exit_hash"]), cNhex(o["opt_hash"])))
 
 
